@@ -1,31 +1,154 @@
-"""Shared orchestration of the chain-level engines (specs/chain + harness/cmd/forks ...)."""
+"""Shared orchestration of the chain-level engines (specs/chain + harness/cmd/forks, casper ...).
+
+Several properties are decided by the same exploration + replay (C11, C12, C16, C17, C18 ...);
+each check registers only the divergences attributed to its own property. To keep the checks
+affordable the two expensive artefacts are cached under work/cache:
+  * TLC output, keyed by the content of every specification file and the cfg (independent of /repo);
+  * replay output, keyed by the sha256 of the harness binary (built from /repo's working tree on
+    every run, so any source change gives another key), the export file and the arguments.
+"""
+import hashlib
 import os
-from common import Infra, NCPU
+import shutil
+from common import Infra, NCPU, SPECS, WORK, ALT, TLCResult
+
+CACHE = os.path.join(WORK, "cache")
 
 
 def mine(ctx):
     return lambda v: (v.get("replay") or {}).get("prop") == ctx.pid
 
 
-def run_forks(ctx, cfg, epochs=(100, 2), timeout=1500):
+def _sha(paths, extra=""):
+    h = hashlib.sha256(extra.encode())
+    for p in paths:
+        with open(p, "rb") as fh:
+            while True:
+                b = fh.read(1 << 20)
+                if not b:
+                    break
+                h.update(b)
+    return h.hexdigest()[:24]
+
+
+def _spec_files():
+    out = []
+    for root, _, fs in os.walk(SPECS):
+        for f in sorted(fs):
+            if f.endswith(".tla"):
+                out.append(os.path.join(root, f))
+    return sorted(out)
+
+
+def tlc_cached(ctx, module, cfg, timeout=3000, tag=None, workers=None, min_exports=100):
+    """Design check + export of a generator module, cached by specification content."""
+    os.makedirs(CACHE, exist_ok=True)
+    key = _sha(_spec_files() + [os.path.join(SPECS, cfg)], module + cfg)
+    path = os.path.join(CACHE, "tlc_%s_%s.out" % (os.path.basename(cfg), key))
+    if os.path.exists(path) and os.environ.get("VERIF_NOCACHE") != "1":
+        r = TLCResult(path, 0, 0.0)
+        r.scratch = os.path.dirname(path)
+        if r.ok and r.nexports >= min_exports:
+            ctx.tlc_runs.append(dict(module=os.path.basename(module), cfg=os.path.basename(cfg), tag=(tag or "") + " (cached TLC output)",
+                                     generated=r.generated, distinct=r.distinct, depth=r.depth, wall_s=0.0,
+                                     violated=None, error=None))
+            return r
+    r = ctx.tlc_design(module, cfg, timeout=timeout, tag=tag, workers=workers)
+    if r.nexports < min_exports:
+        raise Infra("export of %s/%s unexpectedly small: %d" % (module, cfg, r.nexports))
+    tmp = path + ".tmp%d" % os.getpid()
+    shutil.copy(r.path, tmp)
+    os.replace(tmp, path)
+    r.path = path
+    return r
+
+
+def replay_cached(ctx, binary, args, export_path, timeout=3000):
+    """Runs `binary replay <export> <workers> args...` (VH protocol) with a result cache keyed by the
+    binary and the export; returns the parsed result of ctx.harness with only this property's violations
+    registered."""
+    os.makedirs(CACHE, exist_ok=True)
+    key = _sha([binary, export_path], " ".join(args) + "|seed=%d" % ctx.seed)
+    path = os.path.join(CACHE, "replay_%s_%s.vh" % (os.path.basename(binary), key))
+    if os.path.exists(path) and os.environ.get("VERIF_NOCACHE") != "1":
+        h = ctx.harness(["cat", path], timeout=600, keep=mine(ctx))
+        h["cached"] = True
+        return h
+    h = ctx.harness([binary, "replay", export_path, str(NCPU)] + list(args), timeout=timeout, keep=mine(ctx))
+    if h["summary"].get("unreproducible_worker_deaths", 0):
+        raise Infra("a worker died on a case that did not reproduce the death")
+    tmp = path + ".tmp%d" % os.getpid()
+    with open(tmp, "w") as fh:
+        fh.write("".join(l + "\n" for l in h["stdout"].splitlines() if l.startswith("VH ")))
+    os.replace(tmp, path)
+    h["cached"] = False
+    return h
+
+
+def run_forks(ctx, cfg, epochs=(100, 2), timeout=3000):
     """TLC explores ForksGen with `cfg` (design invariants checked at the same time), every
     transition is replayed on a real node for each epoch length in `epochs`."""
     b = ctx.build("forks")
-    r = ctx.tlc_design("chain/ForksGen", cfg, timeout=timeout, tag="forks")
-    if r.nexports < 100:
-        raise Infra("forks export unexpectedly small: %d" % r.nexports)
-    out = dict(tlc=r, cases=0, delivers=0, distinct=0, samples=[], other=0, flaky=0)
+    r = tlc_cached(ctx, "chain/ForksGen", cfg, timeout=timeout, tag="forks")
+    out = dict(tlc=[r], cases=0, calls=0, distinct=0, samples=[], other=0, states=r.distinct, transitions=r.generated)
     for e in epochs:
-        h = ctx.harness([b, "replay", r.path, str(NCPU), str(e)], timeout=timeout, keep=mine(ctx))
+        h = replay_cached(ctx, b, [str(e)], r.path, timeout=timeout)
         s = h["summary"]
-        if s.get("cases", 0) != r.nexports:
-            if not ctx.violations and not h["other"]:
-                raise Infra("forks replay covered %s of %d exported paths" % (s.get("cases"), r.nexports))
-        if s.get("unreproducible_worker_deaths", 0):
-            raise Infra("a worker died on a case that did not reproduce the death")
+        if s.get("cases", 0) != r.nexports and not h["violations"]:
+            raise Infra("forks replay covered %s of %d exported paths" % (s.get("cases"), r.nexports))
         out["cases"] += s.get("cases", 0)
-        out["delivers"] += s.get("delivers", 0)
+        out["calls"] += s.get("delivers", 0)
         out["distinct"] = max(out["distinct"], s.get("distinct", 0))
         out["samples"] += h["samples"][:1]
         out["other"] += len(h["other"])
     return out
+
+
+# casper family: (cfg name, N, Me (99 = the node's key is not a validator), stride quick, stride thorough)
+CASPER_CFGS = {
+    "quick": [("cfg/CasperGen.n1.quick.cfg", 1, 0, 1), ("cfg/CasperGen.n3me.quick.cfg", 3, 0, 1),
+              ("cfg/CasperGen.n3ext.quick.cfg", 3, 99, 4)],
+    "thorough": [("cfg/CasperGen.n1.thorough.cfg", 1, 0, 1), ("cfg/CasperGen.n3me.thorough.cfg", 3, 0, 1),
+                 ("cfg/CasperGen.n3ext.thorough.cfg", 3, 99, 1), ("cfg/CasperGen.n4byz.thorough.cfg", 4, 99, 1)],
+}
+
+
+def run_casper(ctx, timeout=6000):
+    b = ctx.build("casper")
+    out = dict(tlc=[], cases=0, calls=0, distinct=0, samples=[], other=0, states=0, transitions=0, configs=[])
+    for cfg, n, me, stride in CASPER_CFGS[ctx.tier]:
+        r = tlc_cached(ctx, "chain/CasperGen", cfg, timeout=timeout, tag="casper N=%d Me=%d" % (n, me), workers=NCPU)
+        h = replay_cached(ctx, b, [str(n), str(me), str(stride)], r.path, timeout=timeout)
+        s = h["summary"]
+        want = (r.nexports + stride - 1) // stride
+        if abs(s.get("cases", 0) - want) > 1 and not h["violations"]:
+            raise Infra("casper replay covered %s of %d exported paths (%s)" % (s.get("cases"), want, cfg))
+        out["tlc"].append(r)
+        out["states"] += r.distinct
+        out["transitions"] += r.generated
+        out["cases"] += s.get("cases", 0)
+        out["calls"] += s.get("calls", 0)
+        out["distinct"] += s.get("distinct", 0)
+        out["samples"] += h["samples"][:1]
+        out["other"] += len(h["other"])
+        out["configs"].append(dict(cfg=os.path.basename(cfg), N=n, Me=me, exported_paths=r.nexports, replayed=s.get("cases", 0),
+                                   replay_cached=h["cached"]))
+    return out
+
+
+def finish_chain(ctx, parts, rule, assumptions):
+    states = sum(p["states"] for p in parts)
+    trans = sum(p["transitions"] for p in parts)
+    cases = sum(p["cases"] for p in parts)
+    samples = []
+    for p in parts:
+        samples += p["samples"][:2]
+    if not samples:
+        samples = [{"note": "no sample emitted by the replay workers"}]
+    ctx.finish("model_checking", dict(
+        states=states, transitions=trans, traces_validated_against_impl=cases, samples=samples[:4],
+        node_calls_replayed=sum(p["calls"] for p in parts),
+        distinct_paths=sum(p["distinct"] for p in parts),
+        divergences_attributed_to_other_properties=sum(p["other"] for p in parts),
+        casper_configs=[c for p in parts for c in p.get("configs", [])],
+        exhaustive=True, rule=rule), assumptions=assumptions)
